@@ -269,6 +269,9 @@ def run_case(case, seed):
                 if Vd.shape != (n, vals.shape[0]):
                     bad("eigs-shape", {"values": list(vals.shape), "vectors": list(Vd.shape)})
                     continue
+                if not (np.all(np.isfinite(vals)) and np.all(np.isfinite(Vd))):  # NaN compares False with every threshold below
+                    bad("eigs-nonfinite", {})
+                    continue
                 if m >= n and d_inv == n and np.linalg.cond(V) > 1e3:
                     pass  # (nearly) defective integer payload for this seed: eigenvalues are ill conditioned, spectrum comparison not judged
                 elif m >= n and d_inv == n:
